@@ -13,6 +13,22 @@ import (
 	"github.com/wrgl/wrgl/pkg/slice"
 )
 
+// checkBlockRows refuses blocks that the table's primary key cannot be applied to.
+// Tables and blocks may come from another repository and need not agree.
+func checkBlockRows(blk [][]string, pk []uint32) error {
+	if len(blk) == 0 {
+		return fmt.Errorf("block has no rows")
+	}
+	for i, row := range blk {
+		for _, k := range pk {
+			if int(k) >= len(row) {
+				return fmt.Errorf("row %d has %d cells but the primary key refers to column %d", i, len(row), k)
+			}
+		}
+	}
+	return nil
+}
+
 func IndexTable(db objects.Store, tblSum []byte, tbl *objects.Table, logger logr.Logger) error {
 	var (
 		tblIdx    = make([][]string, len(tbl.Blocks))
@@ -30,6 +46,9 @@ func IndexTable(db objects.Store, tblSum []byte, tbl *objects.Table, logger logr
 		blk, bb, err = objects.GetBlock(db, bb, sum)
 		if err != nil {
 			return fmt.Errorf("GetBlock: %v", err)
+		}
+		if err = checkBlockRows(blk, tbl.PK); err != nil {
+			return fmt.Errorf("block %x: %v", sum, err)
 		}
 		if len(tbl.PK) > 0 {
 			tblIdx[i] = slice.IndicesToValues(blk[0], tbl.PK)
